@@ -168,10 +168,13 @@ def family(t, sd):
                     if (ci + objkind) % (1 if t == 'thorough' else 2) == 0:
                         items.append({'model': m, 'style': styles[ci % 3], 'allow_empty': True})
     out = []
-    for it in items:
+    for k_, it in enumerate(items):
         m = it['model']
         if not m['vars'] and not it.get('allow_empty'):
             continue
+        if k_ % 3:
+            m = gen.rename_vars(m, gen.NAME_STYLES[k_ % 3])
+            it = dict(it, model=m)
         consts = None
         m2 = m
         if it.get('lift'):
